@@ -33,6 +33,8 @@ pub struct NodeCtx {
     /// permutation index applied to the (sorted) dirty key list of the next snapshots
     pub key_order: Mutex<Option<Vec<usize>>>,
     pub last_dirty: Mutex<Vec<String>>,
+    /// permutation applied to the user (non-$) keys only; system keys stay first, sorted
+    pub user_perm: Mutex<Option<Vec<usize>>>,
 }
 
 impl NodeCtx {
@@ -43,6 +45,7 @@ impl NodeCtx {
             clock: AtomicU64::new(clock_start),
             key_order: Mutex::new(None),
             last_dirty: Mutex::new(vec![]),
+            user_perm: Mutex::new(None),
         })
     }
     pub fn install(self: &Arc<Self>) {
@@ -60,6 +63,16 @@ impl Hooks for NodeCtx {
     fn order_keys(&self, keys: &mut Vec<(String, Value)>) {
         keys.sort_by(|a, b| a.0.cmp(&b.0));
         *self.last_dirty.lock().unwrap() = keys.iter().map(|k| k.0.clone()).collect();
+        if let Some(perm) = self.user_perm.lock().unwrap().as_ref() {
+            let (sys, user): (Vec<_>, Vec<_>) = keys.iter().cloned().partition(|k| k.0.starts_with('$'));
+            if perm.len() == user.len() {
+                let mut out = sys;
+                for p in perm.iter() {
+                    out.push(user[*p].clone());
+                }
+                *keys = out;
+            }
+        }
         if let Some(perm) = self.key_order.lock().unwrap().as_ref() {
             if perm.len() == keys.len() {
                 let old = keys.clone();
